@@ -259,6 +259,12 @@ func (c *FCGIClient) writePairs(recType uint8, pairs map[string]string) error {
 		if m > maxWrite {
 			// param data size exceed 65535 bytes"
 			vl := maxWrite - 8 - len(k)
+			if vl < 0 {
+				// the name alone does not fit into a record (e.g. a
+				// request header with a 64 KiB name): it cannot be
+				// passed on, drop the pair
+				continue
+			}
 			v = v[:vl]
 		}
 		n := encodeSize(b, uint32(len(k)))
